@@ -287,9 +287,10 @@ def judge_case(case, meta):
                     cur["end"] = t; cur = None
                     st("new_transaction_stages")
                 if cur is None:
-                    cur = dict(owner=owner, qt=qt, id=d.id, start=t, end=None, name=nm, n=0)
+                    cur = dict(owner=owner, qt=qt, id=d.id, start=t, end=None, name=nm, n=0, sight=[])
                     open_tx[key] = cur; txs.append(cur)
                 cur["n"] += 1
+                cur["sight"].append(t)
                 if cur["n"] == 2:
                     st("retransmitted_transactions")
         elif k == "SENT":
@@ -338,8 +339,8 @@ def judge_case(case, meta):
             elif free_t is not None and r.t_issue is not None and r.seq_issue > free_seq:
                 pass
             else:
-                viol("C34:no-callback:" + kind, "request %d issued at t=%d never reported (virtual time ran %.0f s past the bound %.0f s)" %
-                     (rid, r.t_issue, 0, meta["bound"]))
+                viol("C34:no-callback:" + kind, "request %d issued at t=%d never reported although virtual time was advanced by the bound of %.0f s" %
+                     (rid, r.t_issue, meta["bound"]))
             continue
         t, code, seq, after_free = r.cbs[0]
         st("reported_once")
@@ -373,26 +374,34 @@ def judge_case(case, meta):
         if t - (r.t_issue or 0) > 0:
             nontrivial = True
             st("reported_after_virtual_time")
-    # --- transaction ids of requests in flight at the same time are distinct
-    txs.sort(key=lambda x: x["start"])
+    # --- transaction ids of requests in flight at the same time are distinct.  A transaction is known to be in flight
+    # only from each (re)transmission seen on the wire until one request timeout later (then it is either retransmitted,
+    # which is seen, or given up), and not beyond its callback / cancel / next stage / a reply carrying its id / base free.
     INF = 1 << 62
-    for i, a in enumerate(txs):
-        ae = a["end"] if a["end"] is not None else INF
-        for b in txs[i + 1:]:
-            if b["start"] >= ae:
-                continue
-            if a["id"] == b["id"] and (a["owner"], a["qt"]) != (b["owner"], b["qt"]):
-                viol("C34:transaction-id-shared", "id 0x%04x in flight for request %s (t=%d..%s) and request %s (from t=%d)" %
-                     (a["id"], a["owner"], a["start"], a["end"], b["owner"], b["start"]))
-    st("transactions", len(txs))
-    ids = {}
+    T = int(meta["timeout"] * 1e6)
+
+    def windows(x):
+        e = x["end"] if x["end"] is not None else INF
+        return [(s0, min(s0 + T, e)) for s0 in x["sight"] if s0 < e]
+    txs.sort(key=lambda x: x["start"])
+    byid = {}
     for a in txs:
-        ids.setdefault(a["id"], 0); ids[a["id"]] += 1
-    st("transaction_ids_reused_over_time", sum(1 for v in ids.values() if v > 1))
+        byid.setdefault(a["id"], []).append(a)
     conc = 0
-    for i, a in enumerate(txs):
-        ae = a["end"] if a["end"] is not None else INF
-        if any(b["start"] < ae for b in txs[i + 1:]):
+    for idv, lst in byid.items():
+        for i, a in enumerate(lst):
+            for b in lst[i + 1:]:
+                if (a["owner"], a["qt"]) == (b["owner"], b["qt"]):
+                    continue
+                hit = [(wa, wb) for wa in windows(a) for wb in windows(b) if max(wa[0], wb[0]) < min(wa[1], wb[1])]
+                if hit:
+                    viol("C34:transaction-id-shared", "id 0x%04x in flight for request %s (type %d, sent at %s) and request %s (type %d, sent at %s) at the same time" %
+                         (idv, a["owner"], a["qt"], a["sight"][:4], b["owner"], b["qt"], b["sight"][:4]))
+    st("transactions", len(txs))
+    st("transaction_ids_reused_over_time", sum(1 for v in byid.values() if len(v) > 1))
+    allw = sorted((w[0], w[1]) for x in txs for w in windows(x)[:1])
+    for i in range(len(allw) - 1):
+        if allw[i + 1][0] < allw[i][1]:
             conc += 1
     st("transactions_overlapping_in_time", conc)
     for tg in meta["tags"]:
